@@ -5,6 +5,7 @@ An operation is a JSON-able dict {'op': <method name>, 'args': {keyword: spec}};
 (build_arg).  Everything random is drawn while *generating* specs, so a history can be replayed from its JSON."""
 import copy
 import json
+import os
 import random
 
 import cimgen
@@ -625,7 +626,10 @@ def run_http_history(sizes, seed, ops, default_namespace, fault, content_type=No
             # "wire = direct" must also hold with HTTP/API logging switched on for the connection (the log recorder
             # sees the request headers and masks the password in ITS copy)
             import pywbem
-            pywbem.configure_logger('all', log_dest=None, detail_level='all', connection=client)
+            import tempfile
+            logdir = tempfile.mkdtemp(prefix='c04log')
+            pywbem.configure_logger('all', log_dest='file', log_filename=os.path.join(logdir, 'pywbem.log'),
+                                    detail_level='all', connection=client)
         direct_log = []
         orig_i, orig_m = B._imethodcall, B._methodcall
         spy_calls(B, direct_log)
@@ -634,6 +638,15 @@ def run_http_history(sizes, seed, ops, default_namespace, fault, content_type=No
         states = (repo_state(A), repo_state(B))
     finally:
         srv.close()
+        if logging_on:
+            import logging
+            import shutil
+            for name in ('pywbem.api', 'pywbem.http'):
+                lg = logging.getLogger(name)
+                for h in list(lg.handlers):
+                    lg.removeHandler(h)
+                    h.close()
+            shutil.rmtree(logdir, ignore_errors=True)
     return steps, states
 
 
